@@ -28,7 +28,11 @@ class POut(base.Base):
 
 
 def _bits(x):
-    return jax.lax.bitcast_convert_type(jnp.asarray(x, dtype=jnp.float32), jnp.int32)
+    # -0.0 is mapped to +0.0: the default entries of the threaded runtime are built as 0 * arange(-w, 0) = -0.0, the
+    # compiled ones as +0.0 - the same time stamp
+    x = jnp.asarray(x, dtype=jnp.float32)
+    x = jnp.where(x == 0, jnp.float32(0.0), x)  # (x + 0.0 is folded away by XLA under jit)
+    return jax.lax.bitcast_convert_type(x, jnp.int32)
 
 
 def _mix(d, x):
